@@ -4,7 +4,7 @@
    harness/lib.py — keep the format  "| <n> (* <name> *) =>". *)
 From Dlms Require Import Base CrcModel CrcSpec FieldsModel FieldsSpec AddrModel AddrSpec WrapperModel WrapperSpec
   TimeModel TimeSpec AxdrModel AxdrSpec AxdrBridge FrameModel FrameSpec HdlcConnModel HdlcScript HdlcLinkSpec
-  ParsersModel AssocModel AssocSpec.
+  ParsersModel AssocModel AssocSpec TransportModel.
 
 Definition v_bools (l : list bool) : V := VList (map VBool l).
 Definition as_bools (v : V) : list bool := map as_b (as_list v).
@@ -122,6 +122,18 @@ Definition v_access (x : access_item) : V := let '(a, rights, sel) := x in VList
 Definition v_object (x : object_item) : V :=
   let '(cls, version, name, attrs, meths) := x in
   VList [VN cls; v_pv version; VBytes name; VList (map v_access attrs); VList (map v_access meths)].
+
+(* scripted transport session: [client; server; pending; sched; ops], ops: [0] connect, [1; telegram] send, [2] disconnect *)
+Definition t_step (t : transport) (o : V) : V * transport :=
+  let code := as_n (arg 0 o) in
+  if code =? 0 then let '(e, t') := t_connect t in (v_event e, t')
+  else if code =? 1 then let '(r, t') := t_send t (as_bytes (arg 1 o)) in (v_res VBytes r, t')
+  else let '(e, t') := t_disconnect t in (v_event e, t').
+Fixpoint t_script (t : transport) (ops : list V) : list V * transport :=
+  match ops with
+  | [] => ([], t)
+  | o :: r => let '(out, t1) := t_step t o in let '(outs, t2) := t_script t1 r in (out :: outs, t2)
+  end.
 
 Definition run (op : N) (a : V) : V :=
   match op with
@@ -255,5 +267,12 @@ Definition run (op : N) (a : V) : V :=
       let e := mk (as_n (arg 2 a)) (as_b (arg 3 a)) (as_b (arg 4 a)) (as_n (arg 5 a)) in
       let d := if as_n (arg 1 a) =? 0 then AssocSpec.DSend else AssocSpec.DRecv in
       VList [v_optn (AssocSpec.must (as_n (arg 0 a)) d e); v_optn (AssocSpec.may (as_n (arg 0 a)) d e)]
+  (* ---- serial HDLC transport (C18) ---- *)
+  | 140 (* transport_script *) =>
+      let t0 := {| t_conn := conn_init; t_out := []; t_client := as_addr (arg 0 a); t_server := as_addr (arg 1 a); t_max := 128;
+                   t_ser := {| pending := map as_bytes (as_list (arg 2 a)); readable := []; sched := as_nats (arg 3 a); written := [] |} |} in
+      let '(outs, t) := t_script t0 (as_list (arg 4 a)) in
+      VList [VList outs; VList (map VBytes (written (t_ser t))); VList (v_link (c_link (t_conn t)));
+             v_nat (length (c_buf (t_conn t))); v_nat (length (t_out t))]
   | _ => bad_args
   end.
